@@ -88,7 +88,39 @@ def classify(g, s):
     return None
 
 
+def large_graphs(ctx):
+    """sizes no random small graph reaches: chains and rings of more than a thousand nodes (depth of the spanning tree),
+    more than a hundred ring bonds open at the same time (three-digit markers).  Implementation only: the sizes are
+    outside what the model driver is asked to execute."""
+    rng = ctx.rng('large')
+    graphs = []
+    n = 1500
+    g = nx.path_graph(n)
+    graphs.append(('chain-1500', g))
+    graphs.append(('ring-1200', nx.cycle_graph(1200)))
+    k = 104
+    g = nx.path_graph(2 * k + 2)
+    for i in range(k):
+        g.add_edge(i, 2 * k + 1 - i) if not g.has_edge(i, 2 * k + 1 - i) else None
+    graphs.append(('nested-rings-104', g))
+    graphs.append(('complete-21', nx.complete_graph(21)))
+    was = ctx.oracle_only
+    ctx.oracle_only = True
+    try:
+        for tag, g0 in graphs:
+            g = nx.Graph()
+            for kx in g0.nodes:
+                g.add_node(kx, fragname='AB'[kx % 2])
+            for a, b in g0.edges:
+                g.add_edge(a, b, order=1 if tag.startswith('complete') else rng.choice([1, 1, 1, 2, 0]))
+            ctx.feature('large:' + tag)
+            check_graph(ctx, 'large', g, tag)
+    finally:
+        ctx.oracle_only = was
+
+
 def run(ctx):
+    large_graphs(ctx)
     rng = ctx.rng('nxgraph')
     for _ in range(ctx.budget(700, 12000)):
         if ctx.out_of_time():
